@@ -44,6 +44,7 @@ type FuncSpec struct {
 	PanicAssumed []string
 	PanicsIf     []*Clause // specified panics: panic allowed exactly under these conditions
 	Callbacks    map[string]*FuncSpec
+	InlineCalls  []string
 	GhostSets    []*GhostSet
 	GhostExits   []*GhostSet
 	NoSafety     bool // do not emit bounds/nil obligations (pure spec use)
@@ -102,7 +103,7 @@ type Specs struct {
 var tagRe = regexp.MustCompile(`\s@C[0-9]{2,3}\b`)
 var labelRe = regexp.MustCompile(`^\[([A-Za-z0-9_.\-]+)\]\s*`)
 
-var clauseKeywords = map[string]bool{"assumes": true, "ghostset": true, "ghostexit": true, "preserves": true, "requires": true, "ensures": true, "modifies": true, "allocates": true,
+var clauseKeywords = map[string]bool{"inlinecalls": true, "assumes": true, "ghostset": true, "ghostexit": true, "preserves": true, "requires": true, "ensures": true, "modifies": true, "allocates": true,
 	"loop": true, "inline": true, "assume": true, "pure": true, "props": true, "panic_assumed": true,
 	"panics_if": true, "callback": true, "nosafety": true, "params": true, "bounded": true}
 
@@ -495,6 +496,10 @@ func (sp *Specs) parseClause(fs *FuncSpec, w, rest, path string, line int) error
 			fs.GhostExits = append(fs.GhostExits, gs)
 		} else {
 			fs.GhostSets = append(fs.GhostSets, gs)
+		}
+	case "inlinecalls":
+		for _, it := range strings.Split(rest, ",") {
+			fs.InlineCalls = append(fs.InlineCalls, strings.TrimSpace(it))
 		}
 	case "inline":
 		fs.Inline = true
